@@ -301,12 +301,12 @@ def eq_routes(ctx, cr):
                     elif "is_match" in tags and "is_match_err" not in tags:
                         ok = ok and v == ("enum", ai.RESULT, 0, (("sym", "IS_MATCH"),))
                     else:
-                        ok = ok and v[2] == 1
+                        ok = ok and v[0] == "enum" and len(v) > 2 and v[2] == 1
                 elif route == "streq":
                     ok = ok and tags == ["streq"] and v == ("enum", ai.RESULT, 0, (("sym", "STREQ"),))
                     ok = ok and all(e[1] == ("arg1", "arg2") for e in m)
                 elif route == "prim_eq":
-                    ok = ok and not tags and v[2] == 0 and v[3][0][0] == "sym" and " Eq " in v[3][0][1]
+                    ok = ok and not tags and v[0] == "enum" and len(v) > 3 and v[2] == 0 and v[3][0][0] == "sym" and " Eq " in v[3][0][1]
                 elif route == "range":
                     ok = ok and tags == ["range"] and v == ("enum", ai.RESULT, 0, (("sym", "WITHIN"),))
                 elif route in ("mapcmp", "listcmp"):
